@@ -72,6 +72,9 @@ PoolC11 == << All(T_name("p", <<"a">>)), All(T_name("q", <<"a">>)), All(T_name("
               Filter(Var("", <<"n">>), <<>>, <<Step("child", T_nsany("p"))>>),
               CallP("p", <<"f">>, <<IntE(1), Lit(<<"a">>)>>), CallP("q", <<"f">>, <<IntE(1), Lit(<<"a">>)>>),
               CallP("p", <<"f">>, <<All(T_any), All(T_name("p", <<"a">>))>>),
+              \* every argument is evaluated in the context of the CALL (node, position, size), whatever the arguments before it were
+              Abs(<<DoS, Step("child", T_any), FnStep(CallP("p", <<"f">>, <<Rel(<<Step("attribute", T_any)>>), Rel(<<Step("child", T_any)>>)>>))>>),
+              Abs(<<DoS, StepP("child", T_any, <<Bin("eq", CallP("p", <<"f">>, <<Lit(<<"z">>), Call(<<"n","a","m","e">>, <<>>)>>), Lit(<<"a">>))>>)>>),
               Call(<<"c","o","u","n","t">>, <<All(T_any)>>), Call(<<"n","a","r","g","s">>, <<IntE(1), IntE(2), Lit(<<>>)>>), Call(<<"n","a","r","g","s">>, <<>>),
               Call(<<"n","o","s","u","c","h">>, <<>>), CallP("p", <<"n","o","s","u","c","h">>, <<>>), CallP("p", <<"c","o","u","n","t">>, <<All(T_any)>>),
               Abs(<<DoS, StepP("child", T_any, <<Bin("eq", CallP("p", <<"p","o","s">>, <<>>), IntE(2))>>)>>),
